@@ -171,12 +171,12 @@ class Interp:
             self.frames.pop()
             self._force_region, self._force_label = old
 
-    def adopt(self, parent_oid, step, value: Val):
+    def adopt(self, parent_oid, step, value: Val, force=False):
         for r in value.refs:
             if r == parent_oid or r not in self.heap.objs:
                 continue
             ro = self.obj(r)
-            if ro.owner is None:
+            if (ro.owner is None or force) and ro.region not in ("caller", "global"):
                 self.mobj(r).owner = (parent_oid, step)
 
     def anchor(self, oid):
@@ -207,8 +207,18 @@ class Interp:
         for (oid, steps) in base.locs:
             o = self.obj(oid)
             ns = steps + (step,)
-            if steps and steps[0].startswith("."):
-                ts.append(Target(oid, steps[0][1:], ns[1:], o.region, o.cls, "loc"))
+            if not (steps and steps[0].startswith(".")):
+                a, st = self.anchor(oid)
+                if st:
+                    ns = st + ns
+                    oid = a.oid
+                    region = o.region
+                    o = a
+                    ts.append(Target(oid, ns[0][1:] if ns[0].startswith(".") else None,
+                                     ns[1:] if ns[0].startswith(".") else ns, region, o.cls, "loc"))
+                    continue
+            if ns[0].startswith("."):
+                ts.append(Target(oid, ns[0][1:], ns[1:], o.region, o.cls, "loc"))
             else:
                 ts.append(Target(oid, None, ns, o.region, o.cls, "loc"))
         return ts
@@ -216,6 +226,11 @@ class Interp:
     def write_field(self, base: Val, name: str, value: Val, node, kind="rebind"):
         targets = self.store_targets(base, "." + name)
         strong = len(base.refs) == 1 and not base.locs
+        old_refs = frozenset()
+        for oid in base.refs:
+            ov = self.obj(oid).fields.get(name)
+            if ov is not None:
+                old_refs |= ov.refs
         for oid in base.refs:
             o = self.mobj(oid)
             if strong:
@@ -225,7 +240,8 @@ class Interp:
             self.adopt(oid, "." + name, value)
             self.narrow.pop((oid, name), None)
         self.stats["stores"] += 1
-        self.emit("store", node, targets=targets, skind=kind, value=value, base=base, step="." + name)
+        self.emit("store", node, targets=targets, skind=kind, value=value, base=base, step="." + name,
+                  old_refs=old_refs)
 
     def write_elem(self, base: Val, key: Optional[Val], value: Val, node, kind="setitem"):
         targets = self.store_targets(base, "[*]")
@@ -254,7 +270,7 @@ class Interp:
                 parts.append(o.dictkeys[key.const])
             elif o.elem is not None:
                 parts.append(o.elem)
-                if o.cls not in CONTAINER_CLS or o.region != "fresh":
+                if (o.cls not in CONTAINER_CLS or o.region != "fresh") and not self._holds_objects(o.elem):
                     parts.append(Val(locs=[(oid, ("[*]",))]))
             else:
                 parts.append(Val(locs=[(oid, ("[*]",))]))
@@ -266,7 +282,19 @@ class Interp:
         v = join_all(parts) if parts else Val()
         if fancy:
             v = Val(deps=v.deps, tags=v.tags)
+        if key is not None:
+            idx = frozenset("idx:" + t for t in key.tags if t.startswith("loopvar:"))
+            if idx:
+                v = v.with_(tags=v.tags | idx)
         return v.add_deps(deps)
+
+    def _holds_objects(self, v: Val) -> bool:
+        """The value references program / estimator objects (type invariance: the slot keeps holding those)."""
+        for r in v.refs:
+            c = self.obj(r).cls
+            if c and c not in CONTAINER_CLS:
+                return True
+        return False
 
     # ============================================================================================ deepcopy
     def deep_clone(self, v: Val, site, memo=None) -> Val:
